@@ -7,7 +7,7 @@ for d in seeded/*/; do
   id=$(basename $d); echo $id | grep -Eq "$sel" || continue
   prop=$(python3 -c "import json;print(json.load(open('$d/meta.json'))['breaks_property'])")
   git -C $R checkout -q -- .
-  if git -C $R apply $d/patch.diff 2>/dev/null; then
+  if git -C $R apply /verif/$d/patch.diff 2>/dev/null; then
     WCVERIF_DEV_REPO=$R timeout 3000 ./check $prop --tier quick > /tmp/sd_$id.log 2>&1; r="exit=$?"
   else r="patch-does-not-apply"; fi
   git -C $R checkout -q -- .
